@@ -67,6 +67,11 @@ def compare_static(ctx, case, res, target):
         elf, err = refcc.clang_obj(path, os.path.join(d, "s.o"), target, std="gnu2x", extra=refcc.target_flags(target) + ["-fno-data-sections"])
         if elf is None:
             res.discard.append("clang-rejects")
+            if os.environ.get("VERIF_DUMP_DISCARDS"):
+                dd = os.environ["VERIF_DUMP_DISCARDS"]
+                os.makedirs(dd, exist_ok=True)
+                with open(os.path.join(dd, "clang-rejects-%s.c" % sha(src)), "wb") as f:
+                    f.write(b"/* " + (err or "").encode()[:1500] + b" */\n" + src)
             return
         gok, gerr = refcc.syntax_ok(path, "gcc", "gnu2x", pedantic=True)
         if not gok:
